@@ -12,7 +12,9 @@ WITNESS = ("WFreshAfterExpiry", "WExpireSeveral", "WDnsReleaseOthersLive", "WSen
 # flows {1,2,3}: the mirror pair + the DNS flow; flows {3,4,5}: DNS, a second flow of the same client, the unconnectable one
 # the configurations whose histories carry empty payloads (EmptyOn = 0 | 1) must show an empty datagram
 # sent, delivered, keeping its flow alive and completing a plain-DNS flow
-EMPTY_W = ("WEmptyDatagramSent", "WEmptyReplyDelivered", "WEmptyReplyKeepsFlowAlive", "WEmptyAnswerCompletesDns")
+EMPTY_W = ("WEmptyDatagramSent", "WEmptyReplyDelivered", "WEmptyReplyKeepsFlowAlive", "WEmptyAnswerCompletesDns",
+           # ... and the error kinds: a forged ICMP error met by the send or by the reader, an oversize datagram
+           "EnvFault", "SinkWriteTooBig", "WTooBigDropped", "WSendErrWhilePeersUp", "WErrReadWhilePeersUp", "WSentAfterTooBig")
 MC_RUNS = {
     False: [("MCUdpMux.quick.cfg", IMPL + ENV + WITNESS + ("WExpireWhileMirrorLives",)),
             ("MCUdpMux.quick2.cfg", IMPL + ENV + WITNESS + EMPTY_W + ("SockOpenErr", "NewConnErr", "WConnErrOthersLive"))],
@@ -24,7 +26,8 @@ MC_RUNS = {
 # what the executions of the real multiplexer must have exercised (counters of the harness)
 MUST_SEE = ("expired_flows", "dns_done", "socket_errors_read", "send_errors_any", "connect_errors", "client_got", "peer_got",
             "client_dropped", "metric_out", "metric_in",
-            "empty_to_peer", "empty_to_client", "one_octet_to_client", "largest_to_peer", "largest_to_client", "empty_dns_answer")
+            "empty_to_peer", "empty_to_client", "one_octet_to_client", "largest_to_peer", "largest_to_client", "empty_dns_answer",
+            "icmp_faults", "host_unreachable_met_by_reader", "oversize_client_datagrams")
 
 
 def sig_of(lines, run_start, k):
@@ -94,7 +97,8 @@ S5_ENV = ("EnvDgram", "EnvReply", "EnvRelay", "EnvRefuse", "IcmpLands", "IcmpLan
 S5_WITNESS = ("WExpireLeavesSiblings", "WExpireLeavesOneSibling", "WExpireLastReleases", "WDnsLeavesSiblings",
               "WDnsLeavesOneSibling", "WDnsLastReleases", "WSiblingUsedAfterClose", "WTwoAssociations",
               "WErrorClosesSeveral", "WRefusedThenOk", "WReplyAfterFlowEnded")
-S5_EMPTY_W = ("WEmptyDatagramSent", "WEmptyReplyDelivered", "WEmptyAnswerCompletesDns")
+S5_EMPTY_W = ("WEmptyDatagramSent", "WEmptyReplyDelivered", "WEmptyAnswerCompletesDns",
+              "EnvFault", "SendTooBig", "WSendErrWhileRelayUp")
 # flows {1,3} of one source with the SOCKS5 server allowed to hold its UDP ASSOCIATE reply: the tick cancels the handshake
 S5_HOLD = ("MCUdpMuxSocks.hold.cfg", ("AssocOpenStart", "AssocOpenDone", "OpenCancelled", "NewConnCancelled", "EnvHold",
                                       "WCancelledThenFresh", "InsertPipeEntry", "Tick", "Expire", "DnsDone") + S5_EMPTY_W)
@@ -106,7 +110,7 @@ S5_MC = {
             + S5_ENV + ("WErrorOtherSourceLives", "WTwoAssociations", "WExpireLastReleases", "WRefusedThenOk",
                         ))],
 }
-S5_MUST_SEE = ("empty_to_peer", "empty_to_client", "one_octet_to_client", "largest_to_peer", "largest_to_client", "empty_dns_answer",
+S5_MUST_SEE = ("icmp_faults", "host_unreachable_met_by_reader", "oversize_client_datagrams", "empty_to_peer", "empty_to_client", "one_octet_to_client", "largest_to_peer", "largest_to_client", "empty_dns_answer",
                "handshake_cancelled_by_tick", "assoc_open", "assoc_refused", "assoc_add_peer", "peer_closed_sibling_left", "assoc_release", "assoc_error",
                "s5_send_err", "expired_flows", "dns_done", "client_got", "client_dropped", "peer_got", "metric_out", "metric_in")
 
@@ -199,10 +203,10 @@ def run(ctx):
         ctx.spec_must_hold(mc)
         states += mc["distinct"]
         trans += mc["states"]
-    nsim = 2500 if ctx.thorough else 700
+    nsim = 2500 if ctx.thorough else 600
     gen = ctx.tlc("MCUdpMuxGen", "MCUdpMuxGen.cfg", workers=1, simulate=nsim, depth=150, timeout=1200, coverage=False)
     ctx.spec_must_hold(gen)
-    nrand = 10000 if ctx.thorough else 2500
+    nrand = 10000 if ctx.thorough else 2000
     trace = os.path.join(ctx.work, "udpmux.ndjson")
     r = ctx.harness("c07", ["--schedules", gen["out"], "--random", str(nrand), "--trace", trace], name="c07")
     os.remove(gen["out"])
@@ -252,6 +256,7 @@ def run(ctx):
                  "S5Send, invariants AssocIffLive/SiblingsUndisturbed/NoEmptyAssoc/GaugeExact (one guard per association)."),
     }
     return ctx.finish("model_checking", cov, assumptions=[
+        "error kinds of a flow's socket: ECONNREFUSED (closed port, real ICMP), EHOSTUNREACH (ICMP type 3 code 13 forged with a raw socket on loopback, quoting the flow's datagram; needs root - without a raw socket the Fault operations are skipped and the check fails as vacuous), EMSGSIZE (a client datagram one octet longer than the socket carries: more than the mux wire format's decoder admits, the pipe is driven through the door); other kinds (EPERM, ENETUNREACH, ENOBUFS) follow the same code path and are not provoked",
         "payload lengths: the models use {0, f} octets for flow f (which one is fixed by the parity of the operation's position); the real runs use 0, 1, 5..30 and the largest datagram the loopback sockets carry (65507 direct, 65497 behind the 10-octet SOCKS5 header), chosen by the datagram's number; an empty or one-octet datagram is identified by order (oldest outstanding of that label and length)",
         "bounded model: 3 flows per exhaustive configuration (two configurations), T = 4 ticks, <= 4 (quick) / 5 (thorough) environment operations, horizon 6 ticks, <= 2 queued datagrams",
         "time does not advance while the left pipe is parked in the first send on a fresh socket (one reactor turn); a tick cancelling that send (the datagram is lost, the tables stay consistent) is not explored. The awaited on_new_udp_connection of the SOCKS5 upstream IS explored: the in-process server holds its reply across expiry ticks (Hold/Release)",
